@@ -193,12 +193,19 @@ def work(chunk):
 
     t = Tally()
     disturb_process()
+    from vf.checks import c06
+
     for cls in chunk:
         touch_bases(cls)
         for c in S.children(cls):
             if c.kind == "unsup":
                 continue
             probe_child(t, cls, c)
+        # the same probes with the library's loggers at DEBUG (a formatting handler attached)
+        with c06.verbose_logging({"loglevel": "DEBUG"}):
+            for c in S.children(cls):
+                if c.kind != "unsup":
+                    probe_child(t, cls, c)
         probe_lists(t, cls)
         t.count("classes")
     return t
@@ -217,7 +224,7 @@ def run(ctx):
     cov = {
         "evaluations": tally.counts.get("evaluations", 0),
         "distinct_nontrivial": tally.counts.get("probes", 0) + tally.counts.get("groups", 0) + tally.counts.get("list-probes", 0),
-        "rule": "every concrete aggregate class (ALL-CAPS, found by its tag) x every declared child (static: member class exported, attribute name = "
+        "rule": "(every probe twice: default logging, and the library loggers at DEBUG) every concrete aggregate class (ALL-CAPS, found by its tag) x every declared child (static: member class exported, attribute name = "
         "lower-cased member class name, not Unsupported beyond the 24 documented ones) x every group declared on any base (names existing, optional, "
         "non-repeated children; in force in the class) + one construct/to_etree/from_etree probe per child on the smallest instance containing it + one "
         "full-instance probe per class with repeated kinds; non-trivial = probes and group checks (static per-child checks counted in evaluations only)",
